@@ -25,11 +25,17 @@ def pieceOfJson (j : Json) : Except String Layout.Piece := do
   | [.str "n", .bool cr] => pure (.nl cr)
   | _ => throw "bad piece"
 
+/-- The runner splits the driver's output with `str.splitlines()`, which also breaks at U+0085, U+2028, U+2029
+    (JSON leaves them unescaped): they travel as private-use code points and the harness maps them back. -/
+def safeStr (s : String) : Json :=
+  .str (String.ofList (s.toList.map fun ch =>
+    if ch = '\u0085' then '\uE085' else if ch = '\u2028' then '\uE028' else if ch = '\u2029' then '\uE029' else ch))
+
 def indStr (l : List Layout.Ws) : String :=
   String.ofList (l.map fun w => match w with | .sp => ' ' | .tab => '\t')
 
 def tokToJson : Layout.Tok → Json
-  | .body ty v => Json.arr #[.str "b", .str ty, .str v]
+  | .body ty v => Json.arr #[.str "b", .str ty, safeStr v]
   | .nl i => Json.arr #[.str "n", .str (indStr i)]
   | .indent i => Json.arr #[.str "i", .str (indStr i)]
   | .dedent (some i) => Json.arr #[.str "d", .str (indStr i)]
@@ -79,7 +85,7 @@ def handle (op : String) (j : Json) : Except String Json := do
     let lines ← la.toList.mapM fun x => x.getStr?
     match ErrWrap.wrapCur exc version path lines with
     | .returned => pure (Json.mkObj [("returned", .bool true)])
-    | .raised cls msg => pure (Json.mkObj [("raised", .str cls), ("msg", .str msg)])
+    | .raised cls msg => pure (Json.mkObj [("raised", .str cls), ("msg", safeStr msg)])
   | _ => throw s!"unknown op C13.{op}"
 
 end NemoVerif.Drive.C13
